@@ -34,6 +34,7 @@ fn subsets(phases: u8, n_inst: u8) -> Vec<FamParams> {
             n_inst,
             rows: 1 + (m % 3) as u8,
             fx_tweak: 0,
+            rot_first: m % 5 == 2,
         });
     }
     v
@@ -129,6 +130,40 @@ fn configs(cx: &Ctx) -> Vec<Config> {
                 hash: Hash::Blake2b,
                 wit: seeded,
             });
+        }
+    }
+    // (C') the first opening point is not x: a gate configured first queries Rotation::prev first
+    for phases in 1..=2u8 {
+        for n_inst in 1..=2u8 {
+            for nb_c in 0..=1usize {
+                for np in [1usize, 2] {
+                    for hash in [Hash::Blake2b, Hash::Poseidon] {
+                        let mut p = FamParams::rich(phases, n_inst);
+                        p.rot_first = true;
+                        push(Config {
+                            p: p.clone(),
+                            v1: false,
+                            num_proofs: np,
+                            nb_committed: nb_c,
+                            k: 0,
+                            hash,
+                            wit: seeded,
+                        });
+                        let mut q = FamParams::minimal();
+                        q.rot_first = true;
+                        q.n_inst = n_inst;
+                        push(Config {
+                            p: q,
+                            v1: false,
+                            num_proofs: np,
+                            nb_committed: nb_c,
+                            k: 0,
+                            hash,
+                            wit: seeded,
+                        });
+                    }
+                }
+            }
         }
     }
     // (D) witness families and larger k on the richest circuit
